@@ -66,16 +66,16 @@ Proof. intros M H. apply cleanup_points_meta in H. destruct H as [A B]. rewrite 
 Lemma crash_minv order s o c img :
   Inv s -> In (c, img) (crash_points order s o) -> MInv (meta img) (seq img).
 Proof.
-  intros I H. destruct o; simpl in H; try contradiction.
+  intros I H. destruct o; simpl in H; try contradiction; nrm.
   - apply in_app_or in H. destruct H as [H|H]; [eapply create_points_minv; eauto|].
     destruct (create_snapshot s KActive key parent l) as [s1 [e|sn]] eqn:CS; [simpl in H; contradiction|].
     pose proof (create_inv _ _ _ _ _ _ _ I CS) as I1.
     pose proof (create_ok _ _ _ _ _ _ _ CS) as OK. destruct OK as [_ [_ [ID [_ [E1 _]]]]].
-    destruct (l_target l) as [t|]; [|simpl in H; contradiction].
+    destruct (l_target lm) as [t|]; [|simpl in H; contradiction].
     destruct mok; [|simpl in H; contradiction].
     destruct H as [H|H]; [inversion H; subst img; apply durable_minv; auto|].
-    destruct (commit_active (fs_mount s1 (sn_id sn) l true) t key (set_remote l) true) as [s3 x] eqn:CA.
-    assert (I2 : Inv (fs_mount s1 (sn_id sn) l true)).
+    destruct (commit_active (fs_mount s1 (sn_id sn) lm true) t key (set_remote l) true) as [s3 x] eqn:CA.
+    assert (I2 : Inv (fs_mount s1 (sn_id sn) lm true)).
     { apply mount_inv; auto.
       - rewrite ID. subst s1. simpl. lia.
       - destruct (mounted s1 (sn_id sn)) eqn:M; auto. apply mounted_in in M. destruct M as [lb M].
